@@ -10,6 +10,8 @@
 mod progen;
 #[path = "../c03/host.rs"]
 mod host;
+#[path = "../c03/glue.rs"]
+mod glue;
 
 use host::*;
 use roto::{FileTree, List, Package, RotoString, Val, Verdict};
@@ -170,7 +172,7 @@ struct Reject {
 
 impl Reject {
     /// the construct class a rejection (and the measured defect behind it) belongs to
-    fn class(&self) -> String {
+    fn class(&self, src: &str) -> String {
         let strip = |s: &str| -> String {
             let last = s.rsplit('.').next().unwrap_or(s);
             last.chars().filter(|c| !c.is_ascii_digit() && *c != '(' && *c != ')').collect()
@@ -179,8 +181,19 @@ impl Reject {
             return "aggregate-literal-diverging-field".into();
         }
         if self.arg && self.reason == "return-leak" {
-            // an argument temporary still owned at a `return` that a later argument executes
-            return "diverging-later-call-argument".into();
+            // An argument temporary still owned at an exit. The known class is: the exit sits
+            // in a *later argument / operand* of a call, list literal or operator. If the script
+            // has no exit in such a position the leak has another cause; when its only exits in
+            // expression position sit inside f-string interpolations the leaked temporary is the
+            // f-string's accumulator (or a part on its way to `append`).
+            let sites = exit_sites(src);
+            if sites.iter().any(|s| s.later_operand) {
+                return "diverging-later-call-argument".into();
+            }
+            if sites.iter().any(|s| s.in_interpolation) {
+                return "f-string-interpolation-exit".into();
+            }
+            return format!("call-argument-leak:{}", strip(&self.def_block));
         }
         if self.def_block.contains("guard_") {
             if self.var.starts_with('$') {
@@ -198,6 +211,126 @@ impl Reject {
         }
         format!("other:{}:{}", strip(&self.def_block), self.reason)
     }
+}
+
+/// Where an early exit (`return` / `accept` / `reject` / `(…)?`) of the script sits.
+#[derive(Debug, Clone, Copy, PartialEq)]
+pub struct ExitSite {
+    /// inside the `{…}` of an f-string
+    pub in_interpolation: bool,
+    /// after a `,` inside `(…)` / `[…]` or after a binary operator of an enclosing expression
+    pub later_operand: bool,
+}
+
+/// Scan our own scripts (generated or from the table) for the syntactic position of every exit.
+pub fn exit_sites(src: &str) -> Vec<ExitSite> {
+    #[derive(PartialEq, Clone, Copy)]
+    enum K {
+        Paren,
+        Brace,
+        Interp,
+        FStr,
+    }
+    // only `main` (the prelude's functions are the same in every script)
+    let body = src.find("main(").and_then(|i| src[i..].find('{').map(|j| &src[i + j..])).unwrap_or(src);
+    let b: Vec<char> = body.chars().collect();
+    let mut stack: Vec<(K, bool)> = vec![];
+    let mut out = vec![];
+    let mut i = 0;
+    let word_at = |i: usize, w: &str| -> bool {
+        let n = w.chars().count();
+        i + n <= b.len()
+            && b[i..i + n].iter().copied().eq(w.chars())
+            && (i == 0 || !(b[i - 1].is_alphanumeric() || b[i - 1] == '_'))
+            && (i + n == b.len() || !(b[i + n].is_alphanumeric() || b[i + n] == '_'))
+    };
+    while i < b.len() {
+        let c = b[i];
+        if stack.last().map(|t| t.0) == Some(K::FStr) {
+            match c {
+                '"' => {
+                    stack.pop();
+                }
+                '{' => stack.push((K::Interp, false)),
+                _ => {}
+            }
+            i += 1;
+            continue;
+        }
+        let site = |stack: &Vec<(K, bool)>| ExitSite {
+            in_interpolation: stack.iter().any(|t| t.0 == K::Interp),
+            later_operand: stack.iter().any(|t| t.1),
+        };
+        match c {
+            'f' if i + 1 < b.len() && b[i + 1] == '"' && (i == 0 || !(b[i - 1].is_alphanumeric() || b[i - 1] == '_')) => {
+                stack.push((K::FStr, false));
+                i += 2;
+                continue;
+            }
+            '"' => {
+                i += 1;
+                while i < b.len() && b[i] != '"' {
+                    i += 1;
+                }
+            }
+            '(' => stack.push((K::Paren, false)),
+            // a list literal creates the list handle before its first element
+            '[' => stack.push((K::Paren, true)),
+            '{' => {
+                // `if a == b {` / `while i < n {`: the condition's operators end here
+                let prev = b[..i].iter().rev().find(|c| !c.is_whitespace()).copied().unwrap_or(' ');
+                if let Some(t) = stack.last_mut() {
+                    if t.0 != K::Paren && !matches!(prev, '+' | '=' | '<' | '(' | ',') {
+                        t.1 = false;
+                    }
+                }
+                stack.push((K::Brace, false));
+            }
+            ')' | ']' | '}' => {
+                stack.pop();
+            }
+            ',' => {
+                if let Some(t) = stack.last_mut() {
+                    t.1 = t.0 == K::Paren;
+                }
+            }
+            ';' => {
+                if let Some(t) = stack.last_mut() {
+                    if t.0 != K::Paren {
+                        t.1 = false;
+                    }
+                }
+            }
+            '+' | '<' => {
+                if let Some(t) = stack.last_mut() {
+                    t.1 = true;
+                }
+            }
+            '=' | '!' if i + 1 < b.len() && b[i + 1] == '=' => {
+                if let Some(t) = stack.last_mut() {
+                    t.1 = true;
+                }
+                i += 1;
+            }
+            '=' if i + 1 < b.len() && b[i + 1] == '>' => {
+                i += 1;
+            }
+            '?' => {
+                let prev = b[..i].iter().rev().find(|c| !c.is_whitespace());
+                if prev == Some(&')') {
+                    out.push(site(&stack));
+                }
+            }
+            _ => {
+                if word_at(i, "return") || word_at(i, "accept") || word_at(i, "reject") {
+                    out.push(site(&stack));
+                    i += 5;
+                }
+            }
+        }
+        i += 1;
+    }
+    out
 }
 
 struct Checked {
@@ -267,7 +400,8 @@ fn one_case(rep: &mut Report, drv: &mut Driver, src: &str, ret: Ret, origin: &st
             return;
         }
     };
-    // measured oracle: every steering input, second call measures allocations too
+    // measured oracle: every steering input; where the tokens balance a second (warm) call
+    // measures the heap too: a leaked or doubly freed String / List shows as an allocation delta
     let mut bad: Option<(Inputs, Balance)> = None;
     let mut alloc_bad: Option<(Inputs, Balance)> = None;
     let mut sig = std::collections::BTreeSet::new();
@@ -297,28 +431,45 @@ fn one_case(rep: &mut Report, drv: &mut Driver, src: &str, ret: Ret, origin: &st
         json!({"script": src, "ret": ret.name(), "inputs": {"n": i.n, "m": i.m, "c": i.c},
                "balance": balance_json(b), "origin": origin})
     };
-    match (&bad, checked.rejects.first()) {
+    let glue = origin.starts_with("glue");
+    // token imbalance first, then heap imbalance
+    let measured = bad.or(alloc_bad);
+    let describe = |b: &Balance| {
+        if b.ok() {
+            format!("heap allocations not balanced after the call (delta {:+}): a String or List leaked or was freed twice", b.allocs)
+        } else {
+            format!("live-token delta {}, double drops {}, use after drop {}", b.live, b.double_drop, b.use_after_drop)
+        }
+    };
+    match (&measured, checked.rejects.first()) {
         (None, None) => {
-            if let Some((i, b)) = &alloc_bad {
-                rep.violation(
-                    &format!("heap allocations not balanced after the call (delta {}): a string or list leaked or was freed twice", b.allocs),
-                    "alloc-imbalance", input(i, b));
-            }
-            rep.class(format!("balanced:{}", class_sig(src)));
+            rep.class(if glue { format!("balanced-glue:{}", class_of_glue(origin, src)) } else { format!("balanced:{}", class_sig(src)) });
         }
         (Some((i, b)), Some(r)) => {
             rep.violation(
-                &format!("{}: live-token delta {}, double drops {}, use after drop {} (checker: {} at {} on {} [{}])",
-                    r.class(), b.live, b.double_drop, b.use_after_drop, r.reason, r.block, r.var, r.status),
-                &r.class(), input(i, b));
-            rep.class(format!("defect:{}", r.class()));
+                &format!("{}: {} (checker: {} at {} on {} [{}])", r.class(src), describe(b), r.reason, r.block, r.var, r.status),
+                &r.class(src), input(i, b));
+            rep.class(format!("defect:{}", r.class(src)));
+        }
+        (Some((i, b)), None) if glue => {
+            // the MIR is justified by the verified checker: what is wrong is below it, in the
+            // generated drop / clone functions of the declared types
+            rep.violation(
+                &format!("drop/clone glue: {} for a value of the declared types ({}) on the path n={} m={} c={}; the MIR is accepted by the verified checker",
+                    describe(b), src.lines().filter(|l| l.starts_with("record") || l.starts_with("enum")).collect::<Vec<_>>().join("; "), i.n, i.m, i.c),
+                "drop-clone-glue", input(i, b));
+            rep.class("defect:drop-clone-glue".to_string());
         }
         (Some((i, b)), None) => {
-            rep.violation(
-                &format!("imbalance measured (live {}, double drops {}, use after drop {}) on a program the verified checker accepted",
-                    b.live, b.double_drop, b.use_after_drop),
-                "unpredicted-imbalance", input(i, b));
-            rep.mismatch("checker accepted, execution imbalanced: the ownership model is not faithful here", input(i, b));
+            if b.ok() {
+                rep.violation(&describe(b), "alloc-imbalance", input(i, b));
+            } else {
+                rep.violation(
+                    &format!("imbalance measured ({}) on a program the verified checker accepted", describe(b)),
+                    "unpredicted-imbalance", input(i, b));
+                rep.mismatch("checker accepted, execution imbalanced: the ownership model is not faithful here", input(i, b));
+            }
+            rep.class(format!("balanced:{}", class_sig(src)));
         }
         (None, Some(r)) => {
             // The checker cannot justify this program and none of the steering inputs drives
@@ -326,12 +477,17 @@ fn one_case(rep: &mut Report, drv: &mut Driver, src: &str, ret: Ret, origin: &st
             // rejection stands as a broken obligation of that construct class.
             rep.violation(
                 &format!("{}: the verified checker rejects the compiler's MIR ({} at {} on {} [{}]); none of the {} steering inputs reaches the offending path, so no imbalance was measured",
-                    r.class(), r.reason, r.block, r.var, r.status, all_inputs().len()),
-                &r.class(),
+                    r.class(src), r.reason, r.block, r.var, r.status, all_inputs().len()),
+                &r.class(src),
                 json!({"script": src, "ret": ret.name(), "origin": origin, "confirmed": false}));
-            rep.class(format!("defect-unconfirmed:{}", r.class()));
+            rep.class(format!("defect-unconfirmed:{}", r.class(src)));
         }
     }
+}
+
+/// class of a glue program: the field-order pattern of its declarations (carried in the origin)
+fn class_of_glue(origin: &str, _src: &str) -> String {
+    origin.split('|').nth(1).unwrap_or("?").to_string()
 }
 
 /// signature of a program: which constructs it uses
@@ -378,10 +534,34 @@ fn table() -> Vec<(&'static str, Ret, String)> {
         ("clean-assign-loop", Ret::Str, f("String", "let x = s; let i = 0; while i < n { x = x + \"a\"; i = i + 1; } x")),
         ("clean-match", Ret::Str, f("String", "match opt(t, c) { Some(y) => name(y), None => s }")),
         ("clean-fstring", Ret::Str, f("String", "f\"a{n}b{s}c{name(t)}\"")),
+        // early exits inside f-string interpolations: the accumulator and the parts appended so far
+        ("clean-fstring-question", Ret::OptTk, f("Tk?", "let x = f\"a{n}b{id(maybe(c, m)?)}c\"; Some(mk(slen(x)))")),
+        ("clean-fstring-question-first", Ret::OptTk, f("Tk?", "let x = f\"{id(maybe(c, m)?)}\"; Some(mk(slen(x)))")),
+        ("clean-fstring-return", Ret::Str, f("String", "f\"a{name(t)}b{if c { return s } else { n }}c\"")),
+        ("clean-fstring-return-nested", Ret::U32, f("u32", "let x = f\"a{match opt(t, c) { Some(y) => id(y), None => { return 7 } }}b{s}\"; slen(x)")),
+        ("clean-fstring-in-loop-return", Ret::U32, f("u32", "let i = 0; while i < n { let x = f\"p{i}q{if i == m { return i } else { s }}\"; i = i + slen(x); } i")),
+        // exits while other compiler-internal values are pending
+        ("clean-for-return", Ret::U32, f("u32", "for e in many(n) { if id(e) == m { return 1; } } 0")),
+        ("clean-match-scrutinee-return", Ret::U32, f("u32", "match E.B(s, t) { B(q, x) => { if c { return 1; } slen(q) + id(x) }, A(x) => id(x), C => 0 }")),
         ("witness-call-arg", Ret::U32, f("u32", "let b = same(mk(1), if c { return 3 } else { mk(2) }); 3")),
         ("witness-list-literal", Ret::U32, f("u32", "let l = [mk(1), if c { return 3 } else { mk(2) }]; 3")),
+        ("clean-fstring-accept", Ret::Verdict, format!("{pre}filtermap main({p}) {{ let x = f\"a{{n}}b{{if c {{ accept t }} else {{ m }}}}\"; reject x }}\n")),
         ("clean-list", Ret::ListTk, f("List[Tk]", "let l = [t, mk(1)]; l.push(mk(2)); if c { return l + many(n); } l")),
     ]
+}
+
+/// the glue case `(kind, seed, depth, index)` and its origin string `glue:…|<class>`
+fn glue_case(kind: &str, seed: u64, depth: u32, index: u64) -> Option<(glue::Glue, String)> {
+    if kind == "gtable" {
+        let (name, g) = glue::table().into_iter().nth(index as usize)?;
+        let o = format!("glue-table:{name}|{}", g.class_sig());
+        Some((g, o))
+    } else {
+        let mut rng = Prng::for_case(seed ^ 0x61c8_8646_80b5_83eb, index);
+        let g = glue::Glue::random(&mut rng, depth);
+        let o = format!("glue:{seed}:{index}:{depth}|{}", g.class_sig());
+        Some((g, o))
+    }
 }
 
 fn run_worker_batch(kind: &str, seed: u64, depth: u32, from: u64, n: u64) {
@@ -407,6 +587,15 @@ fn run_worker_batch(kind: &str, seed: u64, depth: u32, from: u64, n: u64) {
                 let t = table();
                 if let Some((name, ret, src)) = t.get(index as usize) {
                     one_case(&mut rep, &mut drv, src, *ret, &format!("table:{name}"));
+                }
+            }
+            "gtable" | "glue" => {
+                if let Some((g, origin)) = glue_case(kind, seed, depth, index) {
+                    rep.hist("glue-decls", format!("{}", g.decls.len()));
+                    if kind == "glue" && index < from + 2 {
+                        rep.sample(json!({"seed": seed, "index": index, "glue": g.describe()}));
+                    }
+                    one_case(&mut rep, &mut drv, &g.script(), Ret::U32, &origin);
                 }
             }
             _ => {}
@@ -520,8 +709,8 @@ fn run_corpus(rep: &mut Report, repo: &str) {
         for r in &c.rejects {
             rep.mismatch(
                 &format!("corpus script: checker rejects item {} ({} at {} on {} [{}], class {}); it cannot be executed by the harness, so the search cannot decide",
-                    r.item, r.reason, r.block, r.var, r.status, r.class()),
-                json!({"script": src, "origin": name, "class": r.class()}));
+                    r.item, r.reason, r.block, r.var, r.status, r.class(src)),
+                json!({"script": src, "origin": name, "class": r.class(src)}));
         }
         if c.rejects.is_empty() {
             rep.class(format!("corpus:{name}"));
@@ -544,12 +733,29 @@ fn on_crash(rep: &mut Report, kind: &str, seed: u64, depth: u32, index: u64, end
             let (s, r, _) = gen_case(seed, index, depth);
             (s, r)
         }
+        "gtable" | "glue" => match glue_case(kind, seed, depth, index) {
+            Some((g, origin)) => {
+                // the MIR of a glue program is plain; a crash here is the generated drop / clone
+                // function running on something that is not a value
+                let src = g.script();
+                let mir_ok = Driver::spawn().ok().map(|mut d| check_script(&mut d, &src)).and_then(|r| r.ok()).is_some_and(|c| c.rejects.is_empty());
+                rep.violation(
+                    &format!("drop/clone glue: the host process died ({}) while a value of the declared types ({}) was created, cloned and released{}",
+                        match ended { rotov_harness::worker::Ended::Signal(s, _) => format!("signal {s}"), e => format!("{e:?}").chars().take(60).collect() },
+                        g.describe(), if mir_ok { "; the MIR is accepted by the verified checker" } else { "" }),
+                    "drop-clone-glue",
+                    json!({"script": src, "ret": "u32", "origin": origin, "crash": true}));
+                rep.class("defect:drop-clone-glue".to_string());
+                return;
+            }
+            None => return,
+        },
         _ => table().get(index as usize).map(|t| (t.2.clone(), t.1)).unwrap_or_default_case(),
     };
     // classify by what the verified checker says about the script
     let (key, why) = match Driver::spawn().ok().map(|mut d| check_script(&mut d, &src)) {
         Some(Ok(c)) => match c.rejects.first() {
-            Some(r) => (r.class(), format!("checker: {} at {} on {} [{}]", r.reason, r.block, r.var, r.status)),
+            Some(r) => (r.class(&src), format!("checker: {} at {} on {} [{}]", r.reason, r.block, r.var, r.status)),
             None => {
                 // Heap corruption surfaces late: the blamed script may be innocent. Run it alone.
                 if kind == "gen" {
@@ -597,6 +803,10 @@ fn main() {
             let nt = table().len() as u64;
             rotov_harness::worker::run_batches(&["table", "0", "0"], nt, 4, timeout, &mut rep,
                 |rep, idx, ended| on_crash(rep, "table", 0, 0, idx, ended));
+            // 1b. drop/clone glue: the class representatives of declared types
+            let ng = glue::table().len() as u64;
+            rotov_harness::worker::run_batches(&["gtable", "0", "0"], ng, 5, timeout, &mut rep,
+                |rep, idx, ended| on_crash(rep, "gtable", 0, 0, idx, ended));
             // 2. the repository's own scripts
             run_corpus(&mut rep, &repo);
             // 3. generated programs, shallow first
@@ -606,6 +816,14 @@ fn main() {
                 let (sd, dp) = (seed, *depth);
                 rotov_harness::worker::run_batches(&["gen", &s, &d], *total, 40, timeout, &mut rep,
                     |rep, idx, ended| on_crash(rep, "gen", sd, dp, idx, ended));
+            }
+            // 4. drop/clone glue on generated type declarations
+            let gplan: &[(u32, u64)] = if thorough { &[(1, 300), (2, 600), (3, 600)] } else { &[(1, 40), (2, 60), (3, 40)] };
+            for (depth, total) in gplan {
+                let (s, d) = (seed.to_string(), depth.to_string());
+                let (sd, dp) = (seed, *depth);
+                rotov_harness::worker::run_batches(&["glue", &s, &d], *total, 40, timeout, &mut rep,
+                    |rep, idx, ended| on_crash(rep, "glue", sd, dp, idx, ended));
             }
             // replays: measured (script + inputs) before predicted-only
             rep.impl_violations.sort_by_key(|v| v["input"]["confirmed"] == json!(false) || v["input"]["crash"] == json!(true));
@@ -617,7 +835,7 @@ fn main() {
             let ret = Ret::parse(v["ret"].as_str().unwrap_or("u32")).expect("ret");
             let mut rep = Report::default();
             let mut drv = Driver::spawn().expect("lean driver");
-            one_case(&mut rep, &mut drv, src, ret, "replay");
+            one_case(&mut rep, &mut drv, src, ret, v["origin"].as_str().unwrap_or("replay"));
             rep.emit();
         }
         Some("worker") => {
@@ -641,6 +859,13 @@ fn main() {
                 }
             }
             rep.emit();
+        }
+        Some("lir") => {
+            let rt = runtime();
+            match roto::verif_hooks::core::lower_to_mir(FileTree::test_file("c03.roto", &args[2], 0), &rt) {
+                Ok(m) => println!("{}", m.lower_to_lir().text()),
+                Err(e) => println!("ERROR\n{e}"),
+            }
         }
         Some("dump") => match dump(&args[2]) {
             Ok(items) => {
